@@ -268,6 +268,7 @@ func init() {
 			return nil
 		}
 		e := st.fork()
+		x.markFailed(e, "sign")
 		sig := x.freshBytes(st, "sig")
 		x.w.Decl("(declare-fun g_signedby (Int " + SSeqI + " " + SSeqI + ") Bool)")
 		_, digest := x.seqOf(st, args[1], cc.Args[1].Type())
